@@ -266,6 +266,11 @@ def check_property(pid, units, tier="quick", seed=0, extra=None):
         os.makedirs(os.path.join(VERIF, "baseline"), exist_ok=True)
         json.dump(sorted(k for k, v in per_clause.items() if all(x == "proved" for x in v)), open(os.path.join(VERIF, "baseline", f"{pid}.json"), "w"), indent=0)
 
+    selftest = _engine_selftest(tier, seed)
+    if selftest.get("disagree"):
+        errors.append("engine self-test: the symbolic executor disagrees with CPython on " + "; ".join(f"{d['function']}{d['args']}: {d['problem'][:120]}" for d in selftest["disagree"][:3]))
+    elif "error" in selftest:
+        errors.append("engine self-test did not run: " + selftest["error"][:300])
     wall = time.time() - t0
     ev = {
         "property_id": pid, "tier": tier, "seed": seed, "level": (extra or {}).get("level", "proof"),
@@ -284,6 +289,7 @@ def check_property(pid, units, tier="quick", seed=0, extra=None):
             "undecided": [u[0] + ": " + str(u[1]) for u in undecided][:50],
             "known_findings": [h[0]["what"] for h in known_hits][:20],
             "bounded_standins": (extra or {}).get("bounded", []),
+            "engine_selftest_vs_cpython": {k: (len(v) if k == "disagree" else v) for k, v in selftest.items()},
             "samples": _samples(real, sols),
             "explanation": (extra or {}).get("explanation", ""),
         },
@@ -313,6 +319,31 @@ def check_property(pid, units, tier="quick", seed=0, extra=None):
             print(f"UNDECIDED property={pid} obligation={u[0]} reason={u[1]} {u[2] or ''}")
         return 2
     return 0
+
+
+def _engine_selftest(tier, seed):
+    """CPython cross-check of the VC generator (tools/engine_selftest.py): a disagreement makes the whole run a checker error (exit 3), never a violation"""
+    if os.environ.get("VERIF_NO_SELFTEST") == "1":
+        return {"skipped": "VERIF_NO_SELFTEST=1"}
+    import subprocess, tempfile
+    out = tempfile.NamedTemporaryFile(suffix=".json", delete=False).name
+    try:
+        p = subprocess.run([sys.executable, "-W", "ignore", os.path.join(VERIF, "tools", "engine_selftest.py"), "--n", "6" if tier == "quick" else "40", "--seed", str(seed), "--json", out],
+                           capture_output=True, text=True, timeout=900)
+        if p.returncode not in (0, 1):
+            return {"error": (p.stderr or p.stdout)[-400:]}
+        d = json.load(open(out))
+        if d.get("functions", 0) < 40 or d.get("samples", 0) == 0:
+            return {"error": f"self-test covered only {d.get('functions')} functions"}
+        d["what"] = "every function of selftest/snippets.py run symbolically (all paths) and natively on random arguments: exactly one path feasible per sample, same result / same exception"
+        return d
+    except Exception as e:
+        return {"error": f"{type(e).__name__}: {e}"}
+    finally:
+        try:
+            os.unlink(out)
+        except OSError:
+            pass
 
 
 def _samples(real, sols, k=4):
